@@ -16,7 +16,7 @@ inductive AM where | secretBasic | secretPost | secretJwt | privateKeyJwt
   deriving Repr, DecidableEq
 inductive Fmt where | opaque | jwt
   deriving Repr, DecidableEq
-inductive SigAlg where | rs256 | es256 | hs256 | ps256
+inductive SigAlg where | rs256 | es256 | hs256 | ps256 | hs384 | hs512 | rs384
   deriving Repr, DecidableEq
 inductive Enc where | none | rsaOaep | ecdhEs
   deriving Repr, DecidableEq
@@ -97,7 +97,7 @@ def allRT : List RT := [.code, .idToken, .codeIdToken]
 def allRM : List RM := [.default, .query, .fragment, .formPost]
 def allAM : List AM := [.secretBasic, .secretPost, .secretJwt, .privateKeyJwt]
 def allFmt : List Fmt := [.opaque, .jwt]
-def allSig : List SigAlg := [.rs256, .es256, .hs256, .ps256]
+def allSig : List SigAlg := [.rs256, .es256, .hs256, .ps256, .hs384, .hs512, .rs384]
 def allEnc : List Enc := [.none, .rsaOaep, .ecdhEs]
 def allUI : List UI := [.json, .rs256, .es256, .enc]
 def allReq : List Req := [.plain, .byValue, .byReference, .pushed]
